@@ -52,15 +52,24 @@ TraceSkip == /\ IsEvent("feed")
              /\ pos' = pos + 1
              /\ UNCHANGED <<ctl, stk, status, out, acc, eofev, opens, evs>>
 
+EofOK(e) == \/ status \in {"ambig","deep"}          \* outside the reference's verdict
+            \/ /\ e.accept = acc
+               /\ acc => LET r == Place(IF status = "trail" THEN <<>> ELSE eofev, pos, opens, evs)
+                         IN /\ e.events = r.evs
+                            /\ e.len = MaxEnd(r.evs)
+
 TraceEof == /\ IsEvent("eof")
-            /\ \/ status \in {"ambig","deep"}          \* outside the reference's verdict
-               \/ /\ TraceLog[l].accept = acc
-                  /\ acc => LET r == Place(IF status = "trail" THEN <<>> ELSE eofev, pos, opens, evs)
-                            IN /\ TraceLog[l].events = r.evs
-                               /\ TraceLog[l].len = MaxEnd(r.evs)
+            /\ EofOK(TraceLog[l])
             /\ UNCHANGED <<ctl, stk, status, out, acc, eofev, pos, opens, evs>>
 
-TraceNext == TraceReset \/ TraceFeed \/ TraceSkip \/ TraceEof
+\* an end-of-input report that the specification does not explain is consumed and reported,
+\* so that one TLC run lists every such document
+TraceBad == /\ IsEvent("eof")
+            /\ ~EofOK(TraceLog[l])
+            /\ PrintT(<<"TRACE-BAD-LINE", l>>)
+            /\ UNCHANGED <<ctl, stk, status, out, acc, eofev, pos, opens, evs>>
+
+TraceNext == TraceReset \/ TraceFeed \/ TraceSkip \/ TraceEof \/ TraceBad
 TraceSpec == TraceInit /\ [][TraceNext]_tvars
 
 \* every line of the trace was explained by a step of the specification
